@@ -172,7 +172,38 @@ func c02GenFast(r *rand.Rand, allow5xx bool) *c02Script {
 	if r.Intn(4) == 0 {
 		st = c02Insert(r, st, c02Step{Op: "yield"}, 0)
 	}
+	st = c02AddWriterCalls(r, st)
 	return &c02Script{Kind: "fast", Steps: st}
+}
+
+// c02AddWriterCalls sprinkles the optional ResponseWriter interfaces over a
+// script of a handler that finishes in time: Flush (only after the response is
+// committed, so that it cannot change the status), Push (anywhere; HTTP/1 and the
+// recorder answer ErrNotSupported) and Hijack (before anything is committed; where
+// the writer supports it the handler takes the connection and writes the very
+// same response itself, otherwise it carries on normally). None of them may change
+// what the client receives.
+func c02AddWriterCalls(r *rand.Rand, st []c02Step) []c02Step {
+	first := len(st)
+	for i, s := range st {
+		if s.Op == "status" || s.Op == "write" {
+			first = i
+			break
+		}
+	}
+	if first < len(st) && r.Intn(5) == 0 {
+		st = c02Insert(r, st, c02Step{Op: "flush"}, first+1)
+	}
+	if r.Intn(8) == 0 {
+		st = c02Insert(r, st, c02Step{Op: "push"}, 0)
+	}
+	if r.Intn(8) == 0 {
+		p := r.Intn(first + 1)
+		out := append([]c02Step{}, st[:p]...)
+		out = append(out, c02Step{Op: "hijack"})
+		st = append(out, st[p:]...)
+	}
+	return st
 }
 
 // c02GenLate: a gated late handler. It blocks on ctx.Done() somewhere, stays
@@ -208,7 +239,7 @@ func c02GenCancel(r *rand.Rand) *c02Script {
 // c02PanicKinds is the alphabet of panic values of the scripted handlers: every
 // one of them is a legal thing for a handler to die with, and the chain owes the
 // client the same answer for all of them.
-var c02PanicKinds = []string{"string", "error", "custom", "typednil", "int", "nilmap", "index", "nilderef", "abort", "wrapabort"}
+var c02PanicKinds = []string{"string", "error", "custom", "typednil", "int", "nilmap", "index", "nilderef", "abort", "wrapabort", "badstatus"}
 
 type c02Custom struct{ Why string }
 
@@ -216,8 +247,12 @@ func (c *c02Custom) Error() string { return "c02 custom panic value" }
 
 // c02DoPanic panics with a value of the given kind (runtime errors are provoked
 // for real).
-func c02DoPanic(kind, id string) {
+func c02DoPanic(kind, id string, w http.ResponseWriter) {
 	switch kind {
+	case "badstatus":
+		// an out-of-range status: timeoutWriter / net/http panic on it unless the
+		// header is already out (then it is ignored and the plain panic below fires)
+		w.WriteHeader(1000)
 	case "error":
 		panic(errors.New("c02 scripted panic (error) in run " + id))
 	case "custom":
@@ -475,11 +510,64 @@ func (run *c02Run) exec(w http.ResponseWriter, r *http.Request) {
 		case "panic":
 			s := vk.Seq()
 			run.add(c02Ev{Step: i, Op: "panic", Before: s, After: s})
-			c02DoPanic(st.V, run.id)
+			c02DoPanic(st.V, run.id, w)
 		case "sleep":
 			time.Sleep(time.Duration(st.N) * time.Microsecond)
 		case "yield":
 			runtime.Gosched()
+		case "flush":
+			ev := c02Ev{Step: i, Op: "flush", Before: vk.Seq()}
+			if f, ok := w.(http.Flusher); ok {
+				f.Flush()
+				ev.N = 1
+			}
+			ev.After = vk.Seq()
+			run.add(ev)
+		case "push":
+			ev := c02Ev{Step: i, Op: "push", Before: vk.Seq()}
+			if p, ok := w.(http.Pusher); ok {
+				ev.N = 1
+				if err := p.Push("/c02-pushed", nil); err != nil {
+					ev.Err = err.Error()
+				}
+			}
+			ev.After = vk.Seq()
+			run.add(ev)
+		case "hijack":
+			ev := c02Ev{Step: i, Op: "hijack", Before: vk.Seq()}
+			hj, ok := w.(http.Hijacker)
+			if !ok {
+				ev.Err = "not a Hijacker"
+				run.add(ev)
+				continue
+			}
+			conn, rw, err := hj.Hijack()
+			if err != nil {
+				ev.Err = err.Error()
+				run.add(ev)
+				continue
+			}
+			// the connection is ours: send exactly the response the script describes
+			mo := run.script.model(run.id, len(run.script.Steps))
+			var b bytes.Buffer
+			fmt.Fprintf(&b, "HTTP/1.1 %d %s\r\n", mo.status, http.StatusText(mo.status))
+			for _, h := range mo.headers {
+				fmt.Fprintf(&b, "%s: %s\r\n", h[0], h[1])
+			}
+			fmt.Fprintf(&b, "Content-Length: %d\r\nConnection: close\r\n\r\n", len(mo.body))
+			b.Write(mo.body)
+			_, werr := rw.Write(b.Bytes())
+			if werr == nil {
+				werr = rw.Flush()
+			}
+			conn.Close()
+			ev.N = 1
+			if werr != nil {
+				ev.Err = "raw write: " + werr.Error()
+			}
+			ev.After = vk.Seq()
+			run.add(ev)
+			return
 		}
 	}
 }
@@ -506,9 +594,9 @@ type c02Env struct {
 
 var c02LogOnce sync.Once
 
-func c02NewEnv(tag string, cfg Config, groups []c02Group) (*c02Env, error) {
+func c02NewEnv(tag string, cfg Config, groups []c02Group, opts ...Option) (*c02Env, error) {
 	c02LogOnce.Do(logx.Disable)
-	srv, err := NewServer(cfg)
+	srv, err := NewServer(cfg, opts...)
 	if err != nil {
 		return nil, err
 	}
